@@ -103,7 +103,7 @@ def main():
     if "seeded" in a.kinds:
         for d in sorted(glob.glob(os.path.join(VERIF, "seeded", "S*"))):
             name = os.path.basename(d)
-            if a.only and a.only not in name:
+            if a.only and not any(o in name for o in a.only.split(",")):
                 continue
             meta = json.load(open(os.path.join(d, "meta.json")))
             want = meta["property"]
@@ -115,7 +115,7 @@ def main():
     if "benign" in a.kinds:
         for pth in sorted(glob.glob(os.path.join(VERIF, "selftest", "benign", "*.patch"))):
             name = os.path.basename(pth)[:-6]
-            if a.only and a.only not in name:
+            if a.only and not any(o in name for o in a.only.split(",")):
                 continue
             jobs.append(("benign", name, pth, props, None))
     out = []
